@@ -1456,6 +1456,9 @@ fn stream_serde(thorough: bool, seed: u64, out: &mut dyn Write) {
         let input = render(&mut r, &toks, (i % 3) as u8);
         writeln!(out, "serfrom {}", hex(&json_string(&mut r, &input))).unwrap();
         writeln!(out, "serto {}", hex(&input)).unwrap();
+        if i % 4 == 1 {
+            writeln!(out, "sernhr {}", hex(&input)).unwrap();
+        }
     }
 }
 
